@@ -1,16 +1,16 @@
 from ..driver import Prop, Suite
-from .. import multigen
+from .. import multigen, unilifegen
 
 KINDS = ["arc_full_sync", "arc_crossbeam", "ogre_arc_atomic", "ogre_arc_full_sync"]
 
 class C10(Prop):
-    pid = "C10"; prop_file = "C10.v"
+    pid = "C10"; prop_file = ["C10.v", "C10U.v"]
     rule = ("cases: sequential histories of create-listener / send / receive-some / drop-listener (with or without unconsumed events) / running_streams_count, 4-14 steps, "
             "MAX_STREAMS in {1,2,4}, BUFFER_SIZE 8; arc/atomic in lock-step with the model (incl. what every live stream still holds at the end), the other four non-log Multi kinds "
             "with the oracle only. Oracle: a stream yields exactly the events accepted during its lifetime, in order, at most once; Pending only when nothing of its lifetime is left; "
             "running_streams_count() = number of live streams; create succeeds whenever fewer than MAX_STREAMS streams live. non-trivial = a stream id was reused")
     trusted_base = ["create_stream_for_new_events / stream drop are single steps of the model (the harness runs them unscheduled); their interleaving with sends is C17's model",
-                    "the same create/drop bookkeeping of the Uni channels is exercised through the Uni suites of C01/C04 (streams created before the run), not by histories",
+                    "the same create/drop bookkeeping of the Uni channels: sequential histories on the five Uni kinds in lock-step with Chan/UniLife.v (whole calls as steps)",
                     "'all of them if it keeps polling until told to end' is checked at the end of each history by draining every live stream, not by cancel"]
     assumptions = ["'between sends' suites: two threads create / remove listeners at the same time, no send overlaps them (overlapping sends are C17)", "one thread issues the history (the property's quantifier is over histories)"]
     def suites(self, tier, rng):
@@ -25,8 +25,13 @@ class C10(Prop):
         for kind in KINDS:
             out.append(Suite("between_sends_" + kind, multigen.HEADER, [multigen.gen_phased(rng, kind) for _ in range(m // 2)]))
         out.append(Suite("recycled_id_race(oracle only)", multigen.HEADER, [multigen.gen_recycle_race(rng) for _ in range(n // 3)], compare=False))
+        # the same bookkeeping on the Uni channels: create / drop / send / poll / count histories, ids recycled, creations beyond MAX_STREAMS
+        F18 = unilifegen.mk_case("move_full_sync", 1, [("create",), ("create",), ("count",), ("drop", 0), ("count",)])
+        for kind in unilifegen.KINDS:
+            out.append(Suite("uni_streams_" + kind, unilifegen.HEADER, ([F18] if kind == "move_full_sync" else []) + [unilifegen.gen_history(rng, kind) for _ in range(m // 2)]))
         return out
     def oracle(self, case, recs):
+        if case.meta.get("profile") == "unilife": return unilifegen.oracle(case, recs)
         if case.meta.get("profile") == "churn":
             # (the 'no payload storage stays occupied' probe belongs to C17's statement, not to this property: it is judged there)
             # a send that overlaps a creation / removal (it can only happen when a creation outlasts its phase of the schedule) is C17's quantifier
@@ -34,6 +39,7 @@ class C10(Prop):
                     if not text.startswith("after everything live was consumed") and not (cls or "").startswith("C17.")]
         return multigen.oracle_history(case, recs)
     def nontrivial(self, case, recs):
+        if case.meta.get("profile") == "unilife": return unilifegen.nontrivial(case, recs)
         if case.meta.get("profile") == "churn":
             iv = multigen.op_intervals(case, recs)
             c = [(a, b) for t in case.meta["churn_tids"] for (op, a, b) in iv.get(t, []) if op[0] in ("creates", "drops")]
@@ -41,6 +47,7 @@ class C10(Prop):
         return multigen.nontrivial_history(case, recs)
     def parse_replay(self, text):
         lines = [l for l in text.splitlines() if l.strip() and not l.startswith("#")]
+        if all(l.startswith("unilife") for l in lines): return Suite("replay", unilifegen.HEADER, [unilifegen.parse_case_line(l) for l in lines])
         cases = [multigen.parse_case_line(l) for l in lines]
         for c in cases:
             progs = c.meta["progs"]
